@@ -7,6 +7,7 @@ import (
 	"math/big"
 	"os"
 	"path/filepath"
+	"strings"
 	"sync"
 
 	"verif/core"
@@ -258,6 +259,8 @@ func buildTx(s txSpec, alice *evmkit.Account) []byte {
 		spec.Gas = 1
 	case "std":
 		spec.Gas = evmkit.DefaultGas
+	case "h63":
+		spec.Gas = 1 << 63
 	case "max":
 		spec.Gas = maxU64
 	default:
@@ -292,6 +295,15 @@ func buildTx(s txSpec, alice *evmkit.Account) []byte {
 		return evmkit.SignEIP155(alice, spec, 9)
 	}
 	v, r, sv := evmkit.SigValues(alice, spec)
+	if strings.HasPrefix(s.S, "vrs:") {
+		// signature-field boundary family: "vrs:<v>:<r>:<s>", each a name of sigFieldValue ("own" = the
+		// value of the sender's genuine signature); encoded by hand, nothing is checked
+		f := strings.Split(s.S, ":")
+		if len(f) != 4 {
+			panic("sig " + s.S)
+		}
+		return evmkit.EncodeTx(spec, sigFieldValue(f[1], v), sigFieldValue(f[2], r), sigFieldValue(f[3], sv))
+	}
 	switch s.S {
 	case "vflip": // a valid signature — of some other address
 		v = new(big.Int).Sub(big.NewInt(55), v)
@@ -306,6 +318,48 @@ func buildTx(s txSpec, alice *evmkit.Account) []byte {
 		panic("sig " + s.S)
 	}
 	return evmkit.EncodeTx(spec, v, r, sv)
+}
+
+// Signature-field boundary values.  N is the order of secp256k1; R and S are
+// scalars mod N, the application's signer (Homestead) also demands S <= N/2;
+// V is 27/28 (Homestead), 35+2c / 36+2c (EIP-155, chain c); the RLP integer
+// fields have no length limit, so values of 33 bytes decode fine.
+var (
+	sigRNames = []string{"0", "1", "N-1", "N", "N+1", "2^256-1", "2^256", "2^264-1"}
+	sigSNames = []string{"0", "1", "N/2", "N/2+1", "N-1", "N", "N+1", "2^256-1", "2^256", "2^264-1"}
+	sigVNames = []string{"0", "1", "26", "27", "28", "29", "35", "36", "37", "38", "53", "54", "255", "256", "2^64"}
+)
+
+func sigFieldValue(name string, own *big.Int) *big.Int {
+	pow := func(n uint) *big.Int { return new(big.Int).Lsh(big.NewInt(1), n) }
+	add := func(x *big.Int, d int64) *big.Int { return new(big.Int).Add(x, big.NewInt(d)) }
+	switch name {
+	case "own":
+		return new(big.Int).Set(own)
+	case "N-1":
+		return add(secp256N, -1)
+	case "N":
+		return new(big.Int).Set(secp256N)
+	case "N+1":
+		return add(secp256N, 1)
+	case "N/2":
+		return new(big.Int).Rsh(secp256N, 1)
+	case "N/2+1":
+		return add(new(big.Int).Rsh(secp256N, 1), 1)
+	case "2^256-1":
+		return add(pow(256), -1)
+	case "2^256":
+		return pow(256)
+	case "2^264-1":
+		return add(pow(264), -1)
+	case "2^64":
+		return pow(64)
+	}
+	n, ok := new(big.Int).SetString(name, 10)
+	if !ok {
+		panic("signature field value " + name)
+	}
+	return n
 }
 
 // spinning reports whether executing the tx runs the interpreter into its budget (≈ 0.6 s).
@@ -409,6 +463,42 @@ func grid(quick bool) []txSpec {
 			s := def()
 			s.S, s.P, s.R = sg, p, "store"
 			add(s)
+		}
+	}
+	// H: signature fields at their boundaries.  R x S x V in full (thorough; "own" = the genuine
+	// value as a further member of each dimension); quick: R x S for V in {27, 28}, and every V
+	// for (R,S) in {(own,own), (1,1), (2^256,1), (1,2^256)}
+	withOwn := func(a []string) []string { return append([]string{"own"}, a...) }
+	for _, v := range withOwn(sigVNames) {
+		for _, r := range withOwn(sigRNames) {
+			for _, sv := range withOwn(sigSNames) {
+				if v == "own" && r == "own" && sv == "own" {
+					continue // the valid signature
+				}
+				if quick {
+					rs := r + "," + sv
+					full := in(v, "27", "28") && r != "own" && sv != "own"
+					if !full && !(v != "own" && in(rs, "own,own", "1,1", "2^256,1", "1,2^256")) {
+						continue
+					}
+				}
+				s := def()
+				s.S = "vrs:" + v + ":" + r + ":" + sv
+				add(s)
+			}
+		}
+	}
+	// I: gas limit 2^63 (two of them exceed 2^64) x gas price x value
+	for _, r := range []string{"eoa", "store", "create"} {
+		for _, pr := range gasPrices {
+			for _, v := range values {
+				if quick && (pr == "max" || v == "bal") {
+					continue
+				}
+				s := def()
+				s.R, s.G, s.Pr, s.V = r, "h63", pr, v
+				add(s)
+			}
 		}
 	}
 	if quick {
